@@ -326,8 +326,17 @@ func (c *L1) Deliver(msgs ...sdk.Msg) Result {
 }
 
 func deliver(ctx sdk.Context, router *baseapp.MsgServiceRouter, gasLimit uint64, msgs ...sdk.Msg) (res Result) {
+	return deliverPre(ctx, router, gasLimit, 0, msgs...)
+}
+
+// deliverPre: as deliver, with pre units of gas already consumed on the transaction's meter (earlier messages of the
+// same transaction, ante handlers).
+func deliverPre(ctx sdk.Context, router *baseapp.MsgServiceRouter, gasLimit, pre uint64, msgs ...sdk.Msg) (res Result) {
 	cacheCtx, write := ctx.CacheContext()
 	gm := NewRecordingGasMeter(gasLimit)
+	if pre > 0 {
+		gm.ConsumeGas(pre, "earlier messages of the same transaction")
+	}
 	cacheCtx = cacheCtx.WithEventManager(sdk.NewEventManager()).WithGasMeter(gm)
 	defer func() {
 		if r := recover(); r != nil {
